@@ -181,7 +181,10 @@ Definition helper_model (c : list tclass * list nat * list (str * value) * cfgda
             for n, r in part.get('values', []):
                 if r[0] != 'ok' or not isinstance(r[1], dict):
                     continue
+                real_names = {rn for rn, _ in part.get('values', [])}
                 for iname, ival in r[1].get('i', []):
+                    if any(rn == iname or rn.split(':')[-1] == iname for rn in real_names):
+                        continue     # the input may be a task that is really run in the helper, not a mock
                     cands = [mn for mn in given if mn == iname] or [mn for mn in given if mn.split(':')[-1] == iname]
                     if len(cands) != 1:
                         continue
